@@ -65,7 +65,7 @@ DSDL = {
 }
 EXTRA_RESOURCE = 'line one   \n\n\n\nline two\t\n#define EXTRA_HELPER 1\n'
 FILE_MODES = [None, None, 0o644, 0o600, 0o400, 0o664, 0o640, 0o444, 0o755, 0o200, 0o0, 0o100644]
-PRE_MODES = [0o444, 0o444, 0o400, 0o644, 0o600, 0o0, 0o555, 0o664, 0o440]
+PRE_MODES = [0o444, 0o444, 0o400, 0o644, 0o600, 0o0, 0o555, 0o664, 0o440, 0o464, 0o060, 0o422]   # incl. group/other-writable only
 FOREIGN_NAMES = ['README.txt', 'ns/notes.md', 'nunavut/support/local.h', 'zz/keep.dat', 'ns/A_1_0.h.bak', 'ns/sub/.hidden']
 GEN_BASE = 1000000
 EDIT_BASE = 400000000
@@ -270,7 +270,8 @@ def gen_history(rng, mode: str, pool: typing.List[dict], fresh: Fresh, max_len: 
     pre = []
     used = set()
     for t in rng.sample(all_targets, min(len(all_targets), rng.choice([0, 1, 2, 3, 5]))):
-        pre.append({'path': t, 'kind': 'file', 'content': 'leftover %d\n' % rng.randrange(3), 'mode': rng.choice(PRE_MODES), 'owned': True})
+        pre.append({'path': t, 'kind': 'file', 'content': rng.choice(['leftover 0\n', 'leftover 1\n', 'leftover 2\n', '']),   # '' = a truncated leftover
+                    'mode': rng.choice(PRE_MODES), 'owned': True})
         used.add(t)
     for n in rng.sample(FOREIGN_NAMES, rng.choice([0, 1, 2, 3])):
         pre.append({'path': n, 'kind': 'file', 'content': 'foreign %d\n' % rng.randrange(3), 'mode': rng.choice(PRE_MODES), 'owned': True})
@@ -806,6 +807,13 @@ def main(chk: core.Check, replay: typing.Optional[str] = None) -> int:
                            'pre': [{'path': 'ns/A_1_0.h', 'kind': 'link', 'dest': 'victim0.h', 'live': live, 'mode': 0o444, 'owned': True}],
                            'steps': [{'cls': 0, 'file_mode': None, 'no_overwrite': noov, 'dry_run': False},
                                      {'cls': 0, 'file_mode': 0o644, 'no_overwrite': not noov, 'dry_run': False}]})
+        # a zero-length leftover (what an aborted run leaves) at a type target and at a support target under --no-overwrite
+        plain_c3 = {'lang': 'c', 'omit': False, 'gensup': 'always', 'trim': False, 'maxl': None, 'ext': None, 'extra': False, 'runprog': False}
+        fresh.prepare([plain_c3])
+        hs.append({'mode': 'plain', 'classes': [plain_c3], 'rodirs': [],
+                   'pre': [{'path': 'ns/A_1_0.h', 'kind': 'file', 'content': '', 'mode': 0o644, 'owned': True}],
+                   'steps': [{'cls': 0, 'file_mode': None, 'no_overwrite': True, 'dry_run': False},
+                             {'cls': 0, 'file_mode': 0o600, 'no_overwrite': False, 'dry_run': False}]})
         for what in specials:   # devices / FIFOs at targets, always exercised when generated
             plain_c2 = {'lang': 'c', 'omit': False, 'gensup': 'never', 'trim': False, 'maxl': None, 'ext': None, 'extra': False, 'runprog': False}
             fresh.prepare([plain_c2])
